@@ -157,8 +157,32 @@ class C15(Prop):
                     validated += 1
                     if len(samples) < 2:
                         samples.append(dict(base=g['attr'].input_text()[:300], superset=r.input_text()[:300]))
-        return dict(evaluations=len(results), validated=validated, failures=failures, samples=samples,
-                    groups=len(groups))
+        # an attribute that names the macro by PATH (`#[derive_ex::derive_ex(..)]`, `#[foo::derive_ex]`) is another macro
+        # invocation (or a foreign attribute), not a list of this one: the impls are those of the request without it
+        # (hand-written; real macro only)
+        raw_in = []
+        for k, (mode, attr, item, extra) in enumerate(PATH_NAMED_LISTS):
+            raw_in.append((mode, attr, item.replace('@X@', ''), dict(k=k, with_path=False)))
+            raw_in.append((mode, attr, item.replace('@X@', extra), dict(k=k, with_path=True)))
+        raw = R.run_raw(raw_in)
+        for a, b in zip(raw[0::2], raw[1::2]):
+            if impl_parts(a.actual) != impl_parts(b.actual) or not impl_parts(a.actual):
+                failures.append(dict(**{'class': 'path-named-attribute-read-as-a-list', 'mode': 'split'}, input=b.input_text(),
+                                     expected=[p[:2] for p in impl_parts(a.actual)][:6], observed=[p[:2] for p in impl_parts(b.actual)][:6]))
+            else:
+                validated += 1
+        return dict(evaluations=len(results) + len(raw), validated=validated, failures=failures, samples=samples,
+                    groups=len(groups), path_named_requests=len(raw))
+
+
+# (entry point, argument list, item with @X@ where the path-named attribute goes, that attribute)
+PATH_NAMED_LISTS = [
+    ('A', 'Clone', '@X@ struct X(u8);', '#[derive_ex::derive_ex(Debug)]'),
+    ('A', 'Clone, Default', '@X@ enum E<T> { #[default] A, B(T) }', '#[::derive_ex::derive_ex(Debug, PartialEq)]'),
+    ('D', '', '#[derive_ex(PartialEq)] @X@ struct X { a: u8 }', '#[derive_ex::derive_ex(Debug)]'),
+    ('A', 'Debug', '@X@ struct X<T>(T);', '#[foo::derive_ex(Clone)]'),
+    ('D', '', '#[derive_ex(Hash, PartialEq)] @X@ enum E { A { x: u8 }, B }', '#[foo::bar::derive_ex]'),
+]
 
 
 def _sx_name(n):
